@@ -77,7 +77,7 @@ def scalar(rng, name, k):
         return rng.choice([0, 1, -1, 12345, -(1 << 40), (1 << 52) + 1])
     return 0
 
-def class_values(rng, name, kinds, part, scal):
+def class_values(rng, name, kinds, part, scal, profile=0):
     """One value (token list) per class, honouring the function's preconditions."""
     objs = [k for k in kinds if k in 'ZzQqFf']
     ncls = max(part) + 1 if part else 0
@@ -87,6 +87,12 @@ def class_values(rng, name, kinds, part, scal):
         f = fam(objs[mem[0]])
         if f == 'z':
             x = zvalue(rng, name, big=(rng.random() < 0.4))
+            if c < 2 and profile:
+                # systematic profiles for the first two classes: size (small / large) and sign
+                bits = (profile >> (2 * c)) & 3
+                x = abs(zvalue(rng, name, big=bool(bits & 1))) or 1
+                if bits & 2 and not NONNEG.search(name):
+                    x = -x
             vals.append([x])
         elif f == 'q':
             import math
@@ -135,7 +141,7 @@ def cases(ctx, tier):
     rng = ctx.rng('cases')
     protos = gen_protos.main()
     ctx.extra_cov['functions_enumerated'] = len(protos)
-    reps = 6 if tier == 'quick' else 40
+    reps = 17 if tier == 'quick' else 64
     out = []
     nparts = 0
     for name, kinds, rk, ret, al in protos:
@@ -147,7 +153,7 @@ def cases(ctx, tier):
                 if name == 'mpz_divexact_ui' and scal[0] == 0: scal[0] = 3
                 if re.search(r'div|mod', name):
                     scal = [s if s != 0 else 7 for s in scal]
-                vals = class_values(rng, name, kinds, p, scal)
+                vals = class_values(rng, name, kinds, p, scal, profile=_ % 16)
                 toks = ['alias', name, ''.join(str(c) for c in p)] + [hx(s) for s in scal]
                 for v in vals:
                     toks += [hx(x) for x in v]
